@@ -58,4 +58,5 @@ ByteXor(a, b) == RefXor(a, b, 8)
 HexToBytes(s)  == CHOOSE b \in Seq(0..255) : TRUE
 BytesToHex(bs) == CHOOSE s \in STRING : TRUE
 StrToBytes(s)  == CHOOSE b \in Seq(0..255) : TRUE
+IsHexString(s) == CHOOSE b \in BOOLEAN : TRUE
 =============================================================================
